@@ -22,6 +22,19 @@ def upper_jobs(ctx, rel):
             ["--api", "upper", "--mode", "pct", "--scenario", "all", "--runs", "20000", "--depth", "5", "--seed", str(ctx.seed)]]
 
 
+def online_race_jobs(ctx, rel):
+    """the scenario group `online-race` (change_tree(Online) racing a put / a slot-less get of the same tree): inside the
+    space of C01 and C04 (concurrent tree changes), outside the scope of the M2 accounting invariant (finding D16)"""
+    p = "2" if ctx.quick else "4"
+    return [["--api", "upper", "--mode", "exhaustive", "--scenario", "online-race", "--preemptions", p],
+            ["--api", "upper", "--mode", "pct", "--scenario", "online-race", "--runs", "100" if ctx.quick else "5000", "--depth", "3",
+             "--seed", str(ctx.seed)]]
+
+
+def upper_jobs_with_online(ctx, rel):
+    return upper_jobs(ctx, rel) + online_race_jobs(ctx, rel)
+
+
 def upper_freeze_jobs(ctx, rel):
     runs = "2" if ctx.quick else "30"
     return [["--api", "upper", "--mode", "freeze", "--scenario", "all", "--runs", runs, "--seed", str(ctx.seed), "--budget", "2000"]]
@@ -32,7 +45,7 @@ def run_conc(ctx, TAG, jobs=upper_jobs):
 
 
 def run_c01_conc(ctx):
-    return run_conc(ctx, "[C01]")
+    return run_conc(ctx, "[C01]", upper_jobs_with_online)
 
 
 def run_c03_conc(ctx):
@@ -42,7 +55,7 @@ def run_c03_conc(ctx):
 def run_c04_conc(ctx):
     """[C04] at the end of every interleaving (quiescent): lower_invb + upper_invb of the dump, stats = exact counts of the
     held-block set, tree_stats.free_frames = stats.free_frames minus offline, validate() passes."""
-    return run_conc(ctx, "[C04]")
+    return run_conc(ctx, "[C04]", upper_jobs_with_online)
 
 
 def run_c10_conc(ctx):
